@@ -44,7 +44,10 @@ def gen_stim(rng, cfg):
     cone = cones(cfg)
     stim, simultaneous = [], 0
     for _ in range(rng.randint(1, 3)):
-        r = rng.randrange(1, 2500) * 1_000_000 + 333
+        # every instant gets an offset of its own: a callback chain started by one stimulus (periods are multiples of
+        # 100 ms) must never fall due at the very instant of a later stimulus -- which of a timer and a coroutine due at
+        # one instant asyncio runs first is not modelled
+        r = rng.randrange(1, 2500) * 1_000_000 + 333 + 37 * len(stim)
         if any(abs(r - r0) < 2_000_000 for r0, _ in stim):
             continue
         a = rng.choice(dl)
